@@ -96,3 +96,69 @@ func TestOpenFinding_ManifestMisreadStrictIsHarmless(t *testing.T) {
 		t.Fatalf("strict manifest: Open after the misread stopped fails: %v", later)
 	}
 }
+
+// failJournalWrite fails the n-th Write call on journal files (counted over all journals).
+type failJournalWrite struct {
+	storage.Storage
+	nth   int
+	calls int
+}
+
+type failJW struct {
+	storage.Writer
+	s *failJournalWrite
+}
+
+func (w *failJW) Write(p []byte) (int, error) {
+	w.s.calls++
+	if w.s.calls == w.s.nth {
+		return 0, os.ErrInvalid
+	}
+	return w.Writer.Write(p)
+}
+
+func (s *failJournalWrite) Create(fd storage.FileDesc) (storage.Writer, error) {
+	w, err := s.Storage.Create(fd)
+	if err != nil || fd.Type != storage.TypeJournal {
+		return w, err
+	}
+	return &failJW{w, s}, nil
+}
+
+// F-C07-JR: when the flush of the old journal fails inside a write-buffer rotation
+// (DB.newMem: journal.Writer.Reset returns the error after it has already switched to the new
+// file), newMem returns without removing the journal file it has just created; the next
+// rotation creates yet another one, and the first stays on storage - unreferenced, its handle
+// never closed - until the DB is reopened.
+func TestOpenFinding_JournalLeftBehindByFailedRotation(t *testing.T) {
+	if os.Getenv("VERIF_DEMO_OPEN") == "" {
+		t.Skip("open known finding; set VERIF_DEMO_OPEN=1 to see it fail")
+	}
+	leaked := false
+	for nth := 1; nth <= 12 && !leaked; nth++ {
+		st := &failJournalWrite{Storage: storage.NewMemStorage(), nth: nth}
+		o := flushy()
+		o.WriteBuffer = 48
+		db, err := leveldb.Open(st, o)
+		if err != nil {
+			t.Fatal(err)
+		}
+		failed := 0
+		for i := 0; i < 12; i++ {
+			if err := db.Put([]byte{'k', byte('a' + i%3)}, []byte("0123456789"), nil); err != nil {
+				failed++
+			}
+		}
+		db.CompactRange(util.Range{})
+		db.CompactRange(util.Range{})
+		logs, _ := st.List(storage.TypeJournal)
+		if len(logs) > 1 {
+			t.Logf("journal write #%d failed (%d Put errors): %d journal files on storage after everything settled: %v", nth, failed, len(logs), logs)
+			leaked = true
+		}
+		db.Close()
+	}
+	if leaked {
+		t.Fatalf("a journal file created by a failed write-buffer rotation is left on storage until the next Open")
+	}
+}
